@@ -204,6 +204,13 @@ def newParentName (hdr : Field) : Bytes :=
   | some t => t.jsonName
   | none => hdr.name
 
+/-- `/repo` 1242bf1: an embedded struct without a JSON name of its own keeps the parent's JSON name for its fields (the
+JSON decoder promotes them into the enclosing object): `if field.Anonymous { if name, _ := head(json tag, ","); name == "" … }` -/
+def keepsParentJSON (hdr : Field) (anon : Bool) : Bool :=
+  anon && (match hdr.tags.lookup .json with
+           | none => true
+           | some content => (headComma content).1 == [])
+
 /-- the loop `for i := 0; i < el.NumField(); i++ { … getFieldDecoder(pInfo, el.Field(i), i, …) }` over the fields
 `i, i+1, …` of a struct whose own index path is `pidx` and whose JSON name is `pj`.
 For a struct field: its own decoder, then (`hasSameType` is false for a finite type) the decoders of its fields built
@@ -212,9 +219,10 @@ def compileN (pidx : Path) (pj : List Bytes) (i : Nat) : Forest → List NDec
   | .nil => []
   | .leaf f rest =>
     { parentIdx := pidx, index := i, jparent := pj, dec := compileField f } :: compileN pidx pj (i + 1) rest
-  | .strct hdr _ kids rest =>
+  | .strct hdr anon kids rest =>
     { parentIdx := pidx, index := i, jparent := pj, dec := compileField hdr, isStruct := true } ::
-      (compileN (pidx ++ [i]) (pj ++ [newParentName hdr]) 0 kids ++ compileN pidx pj (i + 1) rest)
+      (compileN (pidx ++ [i]) (if keepsParentJSON hdr anon then pj else pj ++ [newParentName hdr]) 0 kids ++
+        compileN pidx pj (i + 1) rest)
 
 /-- full index paths of the leaves, in field order (depth first) -/
 def leafPaths (pidx : Path) (i : Nat) : Forest → List Path
